@@ -68,11 +68,13 @@ def ev? : Sexp → Option Ev
   | .list [i, .atom "acq"] => (nat? i).map (·, .acq)
   | .list [i, .atom "rel"] => (nat? i).map (·, .rel)
   | .list [i, .atom "call", c, r] => do some (← nat? i, .call (← call? c) (← bool? r))
+  | .list [i, .atom "tryacq", ok] => do some (← nat? i, .tryAcq (← bool? ok))
   | _ => none
 def ofEv : Ev → Sexp
   | (i, .acq) => .list [ofNat i, .atom "acq"]
   | (i, .rel) => .list [ofNat i, .atom "rel"]
   | (i, .call c r) => .list [ofNat i, .atom "call", ofCall c, ofBool r]
+  | (i, .tryAcq ok) => .list [ofNat i, .atom "tryacq", ofBool ok]
 
 def thread? : Sexp → Option Thread
   | .list [ops, faults] => do some { ops := ← list? op? ops, faults := ← list? nat? faults }
@@ -87,11 +89,11 @@ def input? : Sexp → Option Input
   | _ => none
 
 def trace? : Sexp → Option Trace
-  | .list [log, exc, fin] => do
-      some { log := ← list? ev? log, exc := ← list? (list? bool?) exc, finished := ← bool? fin }
+  | .list [log, exc, fin, sems, sem] => do
+      some { log := ← list? ev? log, exc := ← list? (list? bool?) exc, finished := ← bool? fin, sems := ← list? nat? sems, sem := ← nat? sem }
   | _ => none
 def ofTrace (t : Trace) : Sexp :=
-  .list [ofList ofEv t.log, ofList (ofList ofBool) t.exc, ofBool t.finished]
+  .list [ofList ofEv t.log, ofList (ofList ofBool) t.exc, ofBool t.finished, ofList ofNat t.sems, ofNat t.sem]
 
 def drv : PropDrv Input Trace :=
   { decI := input?, decT := trace?, encT := ofTrace, model := model, clauses := Spec.C12.clauses }
